@@ -1157,15 +1157,6 @@ package ecs
 //@   subRuleV(lsSubs(w.listener) & exchBits(arch, nAdd, nRem, oldTarget, oldRel), maskAndNot(arch.archetypeAccess.Mask, *oldMask), true, maskAndNot(*oldMask, arch.archetypeAccess.Mask), true,
 //@            lsComps(w.listener), oldRel, exchNewRel(arch))
 
-// exchangeNoNotify moves the entity (unsafe storage): assumed contract for what its callers rely on.
-// A no-op exchange (nothing to add or remove) returns nil for the table and the old mask.
-//@ func World.exchangeNoNotify(w, entity, add, rem, relation, hasRelation, target) (arch, oldMask, oldTarget, oldRel)
-//@   flag trusted may_panic
-//@   ensures len(add) == 0 && len(rem) == 0 ==> arch == nil && oldMask == nil && oldRel == nil
-//@   ensures len(add) > 0 || len(rem) > 0 ==> arch != nil && oldMask != nil && validID(arch.archetypeAccess.RelationComponent.id)
-//@   ensures oldRel != nil ==> validID(oldRel.id)
-//@   ensures w.listener == old(w.listener)
-
 //@ func World.exchange(w, entity, add, rem, relation, hasRelation, target)
 //@   props C11
 //@   flag may_panic noframe
@@ -1360,3 +1351,79 @@ package ecs
 //@   ensures forall id uint32 :: {mapHas(c.indices, id)} id != r.id ==> mapHas(c.indices, id) == old(mapHas(c.indices, id)) && c.indices[id] == old(c.indices[id])
 //@   ensures forall p int :: {c.filters[p].ID} 0 <= p && p < old(len(c.filters)) ==>
 //@        c.filters[p].Filter == old(c.filters[p].Filter) && c.filters[p].Archetypes.pointers == old(c.filters[p].Archetypes.pointers) && c.filters[p].Indices == old(c.filters[p].Indices) && c.filters[p].ID == old(c.filters[p].ID)
+
+// ---------------------------------------------------------------------------------------------
+// C01 / C05 / C10 — single-entity moves, on top of assumed storage contracts
+// ---------------------------------------------------------------------------------------------
+// Table storage is unsafe memory (reflect-allocated columns moved with raw copies): the functions below
+// are under ASSUMED contracts (flag trusted); everything above them is proved against these contracts.
+
+//@ func archetype.Remove(a, index) (swapped)
+//@   flag trusted
+//@   requires index < a.len
+//@   ensures a.len == old(a.len) - 1 && swapped == (index != old(a.len) - 1)
+//@   ensures swapped ==> entAt(&a.archetypeAccess, index) == old(entAt(&a.archetypeAccess, a.len - 1))
+//@   modifies a.len
+//@ func archetypeAccess.Get(a, index, id) (p)
+//@   flag trusted
+//@ func archetype.SetPointer(a, index, id, comp) (p)
+//@   flag trusted nodirty
+//@ func archetype.Set(a, index, id, comp) (p)
+//@   flag trusted nodirty
+//@ func archetype.Reset(a)
+//@   flag trusted
+//@   ensures a.len == 0
+//@   modifies a.len
+//@ func archetype.Components(a) (ids)
+//@   props C01
+//@   requires a.node != nil
+//@   ensures ids == a.node.nodeData.Ids
+
+// findOrCreateArchetype walks/extends the archetype graph (maps, paged slices, reflect): assumed contract.
+// Creating graph nodes and empty tables is internal (not observable through the entity view): flag nodirty.
+//@ func World.findOrCreateArchetype(w, start, add, rem, target) (arch)
+//@   flag trusted nodirty may_panic panic_clean
+//@   ensures arch != nil && arch.node != nil && arch.archetypeData != nil
+//@   ensures arch.archetypeAccess.HasRelationComponent ==> arch.archetypeAccess.RelationTarget == target
+//@   ensures !arch.archetypeAccess.HasRelationComponent ==> arch.archetypeAccess.RelationTarget.id == 0
+//@   ensures validID(arch.archetypeAccess.RelationComponent.id)
+//@   ensures arch != start || (len(add) == 0 && len(rem) == 0)
+
+//@ func World.cleanupArchetype(w, arch)
+//@   flag trusted nodirty
+
+// newTarget: the target an entity has after an exchange - the explicit one if a relation is given; otherwise the
+// old one, except zero when a relation component is among the removed ones (hence zero after remove / re-add / swap).
+//@ pred remHasRelation(w *World, rem []ID, n int) bool = exists k int :: {rem[k]} 0 <= k && k < n && specBit(w.registry.IsRelation, rem[k].id)
+//@ pred newTarget(w *World, oldArch *archetype, rem []ID, hasRelation bool, target Entity) Entity =
+//@   ite(hasRelation, target,
+//@     ite(oldArch.archetypeAccess.RelationTarget.id != 0 && meets(oldArch.archetypeAccess.Mask, w.registry.IsRelation) && remHasRelation(w, rem, len(rem)),
+//@         mk(Entity, 0, 0), oldArch.archetypeAccess.RelationTarget))
+
+//@ pred entAlive(w *World, e Entity) bool = e.gen == w.entityPool.entities[int(e.id)].gen
+
+//@ func World.exchangeNoNotify(w, entity, add, rem, relation, hasRelation, target) (arch, oldMask, oldTarget, oldRel)
+//@   props C05 C10 C01 C11
+//@   requires lockInv(&w.locks) && regInv(&w.registry) && idsValid(add) && idsValid(rem) && validID(relation.id)
+//@   requires int(entity.id) < len(w.entityPool.entities) && len(w.entities) == len(w.entityPool.entities)
+//@   requires entAlive(w, entity) ==> w.entities[int(entity.id)].arch != nil && w.entities[int(entity.id)].arch.node != nil && w.entities[int(entity.id)].index < w.entities[int(entity.id)].arch.len
+//@   requires hasRelation && target.id != 0 ==> int(target.id) < len(w.entityPool.entities)
+//@   requires bitSetCovers(&w.targetEntities, len(w.entities))
+//@   requires entAlive(w, entity) ==> int(w.entities[int(entity.id)].arch.archetypeAccess.RelationTarget.id) < len(w.entities)
+//@   flag nosafe may_panic panic_clean
+//@   panics_if isLocked(w)
+//@   panics_if !entAlive(w, entity)
+//@   panics_if len(add) == 0 && len(rem) == 0 && hasRelation
+//@   panics_if hasRelation && target.id != 0 && !entAlive(w, target)
+//@   ensures len(add) == 0 && len(rem) == 0 ==> arch == nil && oldMask == nil && oldRel == nil
+//@   ensures len(add) > 0 || len(rem) > 0 ==> arch != nil && oldMask != nil && validID(arch.archetypeAccess.RelationComponent.id)
+//@   ensures oldRel != nil ==> validID(oldRel.id)
+//@   ensures w.listener == old(w.listener)
+//@   ensures len(add) > 0 || len(rem) > 0 ==> w.entities[int(entity.id)].arch == arch && w.entities[int(entity.id)].index == old(arch.len)
+//@   ensures (len(add) > 0 || len(rem) > 0) && arch.archetypeAccess.HasRelationComponent ==>
+//@       arch.archetypeAccess.RelationTarget == old(newTarget(w, w.entities[int(entity.id)].arch, rem, hasRelation, target))
+//@   ensures len(add) > 0 || len(rem) > 0 ==> oldTarget == old(w.entities[int(entity.id)].arch.archetypeAccess.RelationTarget)
+//@   ensures (len(add) > 0 || len(rem) > 0) ==> sameSet(*oldMask, old(w.entities[int(entity.id)].arch.archetypeAccess.Mask))
+//@   flag noframe
+//@   loop #1
+//@   inv (exists k int :: {rem[k]} 0 <= k && k < $i && specBit(w.registry.IsRelation, rem[k].id)) == false
